@@ -67,6 +67,17 @@ def array_ann(dimstr, dtype=Float, arr=np.ndarray):
     return a
 
 
+def array_ann_nested(toks, split, dtype=Float, arr=np.ndarray):
+    """The same specification written by nesting: dtype[dtype[arr, inner], outer] (docs: the
+    outer dims are prepended). split = number of outer tokens."""
+    key = ("nested", dim_str(toks), split, dtype, arr)
+    a = _ann_cache.get(key)
+    if a is None:
+        inner = dtype[arr, dim_str(toks[split:])]
+        a = _ann_cache[key] = dtype[inner, dim_str(toks[:split])]
+    return a
+
+
 _zeros = {}
 
 
